@@ -1,6 +1,7 @@
 import logging
 
 import numpy as np
+from scipy.sparse.linalg import ArpackNoConvergence
 
 from .transition_matrices import assigns_to_counts, eigenspectrum, \
     trim_disconnected
